@@ -2,6 +2,7 @@ import H2V.Lemmas.ConnCountsPLocal
 import H2V.Lemmas.ConnCountsPWitness
 import H2V.Lemmas.CompBasic
 import H2V.Lemmas.ConnCountsPQueueR
+import H2V.Lemmas.ConnCountsPConn
 /-
   C18 — per-connection state is bounded by configuration, whatever the peer does.
   Property theorems only (lemmas: `H2V/Lemmas/ConnCountsP*.lean`, notes: `ConnCountsPNOTES.md`).
@@ -125,6 +126,26 @@ theorem queues_are_bounded_by_slab {s : Streams} (h : Reach s) (hp : s.panicked 
 /-- non-vacuity -/
 example : Reach wS2 ∧ wS2.panicked = none := ⟨wS2_reach, wS2_facts.1⟩
 
+/-- **The quotas and bounds hold in every state of a running connection.**  (`ConnReach`: every
+    connection state reachable from a fresh client or server connection by polls of the connection
+    future — whatever the peer sent —, user calls and transport events; see
+    `H2V.Props.C05.limits_hold_in_every_connection_state`.)  As long as no `assert!` has fired: the
+    memory of locally reset streams, the remote-reset quota, the local-error-reset quota and the
+    number of counted peer-initiated streams are within their configured limits, and none of the five
+    scheduling queues is longer than the slab. -/
+theorem bounds_hold_in_every_connection_state {c : Conn} (h : ConnReach c) (hp : c.streams.panicked = none) :
+    c.streams.recv.pendingResetExpired.length ≤ c.streams.counts.maxLocalResetStreams ∧
+    c.streams.counts.numRemoteResetStreams ≤ c.streams.counts.maxRemoteResetStreams ∧
+    (∀ m, c.streams.counts.maxLocalErrorResetStreams = some m → c.streams.counts.numLocalErrorResetStreams ≤ m) ∧
+    c.streams.counts.numRecvStreams ≤ c.streams.counts.maxRecvStreams ∧
+    (∀ q, q ≠ QName.pendingAccept → (c.streams.getQ q).length ≤ c.streams.store.slab.length) := by
+  have hq := quotas_hold_everywhere h.reach hp
+  exact ⟨hq.2.1, hq.2.2.1, hq.2.2.2.1, hq.2.2.2.2, fun q hne => queues_are_bounded_by_slab h.reach hp q hne⟩
+
+/-- non-vacuity: a fresh server after its first `poll` -/
+example : ConnReach ((Conn.initServer {} false []).protoPoll 50).1 ∧ ((Conn.initServer {} false []).protoPoll 50).1.streams.panicked = none :=
+  ⟨.step (.server {} false []) (.protoPoll 50 _), by decide +kernel⟩
+
 #print axioms reset_flood_is_cut_off
 #print axioms error_reset_flood_is_cut_off
 #print axioms reset_memory_is_bounded
@@ -133,5 +154,6 @@ example : Reach wS2 ∧ wS2.panicked = none := ⟨wS2_reach, wS2_facts.1⟩
 #print axioms quotas_hold_everywhere
 #print axioms data_flood_disconnects
 #print axioms queues_are_bounded_by_slab
+#print axioms bounds_hold_in_every_connection_state
 
 end H2V.Props.C18
